@@ -1,4 +1,5 @@
 import H2T.Lemmas.RenderFits
+import H2T.Lemmas.DomFactor
 
 /-! # C02 — no output line is wider than the requested width
 
@@ -140,5 +141,27 @@ example :
   subst this
   have := strCh_ok "u" c hc
   exact ⟨by omega, by simp [this.2]⟩
+
+/-! ## the whole pipeline -/
+
+/-- **C02 for the whole pipeline** (style sheets → tree building → rendering): whatever the document and the style sheets,
+    every line of a `.lines` outcome fits the width — under the hypotheses of `lines_fit`, the one about link targets
+    stated for the tree the front end builds -/
+theorem pipeline_lines_fit (cfg : Cfg) (d : Deco) (w : Nat) (useDoc : Bool) (agentCss userCss : Option (List Char))
+    (ci : CharInfo) (depth : Nat) (dom : Node) (ls : List RLine)
+    (hov : cfg.overflow = false) (hwl : cfg.wrapLinks = true) (hd : DecoOk d)
+    (hh : ∀ tree, domTree cfg.decorate useDoc agentCss userCss ci depth dom = .ok tree →
+      ∀ h ∈ nodeHrefs tree, ∀ c ∈ h, c.w ≤ w ∧ (c.ctrl = true → c.w = 0))
+    (h : renderDom cfg d w useDoc agentCss userCss ci depth dom = .lines ls) : ∀ l ∈ ls, width l ≤ w := by
+  obtain ⟨tree, hdt, _, hr⟩ := renderDom_lines cfg d w useDoc agentCss userCss ci depth dom ls h
+  exact lines_fit cfg d w tree ls hov hwl hd (hh tree hdt) hr
+
+/-- without footnotes no hypothesis about the document is left -/
+theorem pipeline_lines_fit_no_footnotes (cfg : Cfg) (d : Deco) (w : Nat) (useDoc : Bool) (agentCss userCss : Option (List Char))
+    (ci : CharInfo) (depth : Nat) (dom : Node) (ls : List RLine)
+    (hov : cfg.overflow = false) (hd : DecoOk d) (hf : cfg.footnotes = false)
+    (h : renderDom cfg d w useDoc agentCss userCss ci depth dom = .lines ls) : ∀ l ∈ ls, width l ≤ w := by
+  obtain ⟨tree, _, _, hr⟩ := renderDom_lines cfg d w useDoc agentCss userCss ci depth dom ls h
+  exact lines_fit_no_footnotes cfg d w tree ls hov hd hf hr
 
 end H2T.C02
